@@ -164,6 +164,9 @@ where
 {
     let tx = safe_apply_args(tx, args)?;
 
+    // nothing the compiler remembers from an earlier transaction may influence this one
+    compiler.reset();
+
     let max_optimize_rounds = max_optimize_rounds.max(3);
 
     let mut last_eval = None;
